@@ -253,7 +253,8 @@ class ListOf(Ty):
 
 
 class MListOf(Ty):
-    """A *mutable* list of symbolic length whose elements are ints / bools / strings or tuples of these
+    """A *mutable* list of symbolic length whose elements are ints / bools / strings, tuples of these, optional
+    values, indexed opaque objects (`RefTo`), opaque objects with an `mlist_codec`, or records (`Inst`) of these
     (pyvc.mlist.MList): results accumulated in loops, out-parameters.  In `M.loop(... modifies=...)` the
     list is havocked in place."""
 
@@ -272,9 +273,28 @@ class MListOf(Ty):
         return m
 
 
+class RefTo(Ty):
+    """Element type for MListOf: an opaque object that is a function of `arity` integer index terms -- an element
+    of the symbolic sequence of interface objects whose uid is `uid[:-2]` (uid ends in '[]'), or the structured
+    result of a pure interface method ('<object uid>.<method>()')."""
+
+    def __init__(self, iface, uid, arity=1):
+        self.iface, self.uid, self.arity = iface, uid, arity
+
+
 def _mshape(ty):
     if isinstance(ty, FixedList):
         return ('tuple', tuple(_mshape(t) for t in ty.elems))
+    if isinstance(ty, Opt):
+        return ('opt', _mshape(ty.inner))
+    if isinstance(ty, RefTo):
+        return ('ref', ty.iface, ty.uid, ty.arity)
+    if isinstance(ty, Iface):
+        iface = ty.iface() if isinstance(ty.iface, types.FunctionType) else ty.iface
+        if getattr(iface, 'mlist_codec', None) is not None:
+            return ('codec', iface)
+    if isinstance(ty, Inst):
+        return ('inst', ty.cls, tuple((k, _mshape(t)) for k, t in ty.fields.items()))
     if isinstance(ty, _Int):
         return ('int',)
     if isinstance(ty, _Bool):
